@@ -164,6 +164,15 @@ CLAIMED.update({
    technique="translation of the CLI handler table + Coq proof over except-dispatch on MROs (all exception classes) + enumeration of failure causes through API and CLI on /repo",
    ref="4 (C16)"),
 })
+CLAIMED.update({
+ "C18": dict(
+   text="PARTIAL by design. Proved (Tie A, tables regenerated from cli.py and entrypoints.py by translator/t3.py): every command-line option (argparse destination) is either structural (data, output, rules/server mode) or reaches a keyword of validate(), and every keyword the command line passes is one validate() reads; "
+        "exit status 0 iff a conforming report was returned, 1 only with a written non-conforming report or validation failure (same dispatch model as C16). "
+        "NOT a theorem: that serialised bytes parse back to the report - that is a statement about rdflib's serialisers and parsers. It is checked differentially: reports of generated cases (every literal kind, language tags, blank-node values, complex paths, sh:detail nesting) x turtle/xml/json-ld/nt/n3 through validate(serialize_report_graph=...) and through `python -m pyshacl -f ...`, plus the human and table formats (verdict, result count) and the exit status.",
+   note="Trusted: Coq kernel + vm_compute; translator T3; the recorder-based check of the option values. Three listed known findings, all rooted in rdflib's serialisers/parsers (bare shorthand for ill-typed literals, native numeric/boolean forms, duplicated shared lists in Turtle/N3). The wording order of generated messages may differ between two runs (C09) and is compared order-free. Holds after fix commit 8fe873c (--max-depth).",
+   technique="translation of the CLI option plumbing + Coq evaluation/lifting + serialisation round-trip differential through API and CLI on /repo",
+   ref="4 (C18)"),
+})
 NOT_YET = {}
 ALL = ["C%02d" % i for i in range(1, 21)]
 REASONS = {}
